@@ -35,6 +35,11 @@ fn c12_replay(inp: &str, outp: &str) {
                 json!({"conf": mis.is_empty(), "mis": mis, "pv": o.pv, "obs": o.obs})
             })
             .unwrap_or_else(|msg| json!({"conf": false, "mis": [{"field": "harness", "spec": "interpretable result", "real": msg}], "pv": [], "obs": Value::Null})),
+            "scionpath" => vh_core::catch(|| {
+                let (o, mis) = c12::scionpath_cell(cell);
+                json!({"conf": mis.is_empty(), "mis": mis, "pv": o.pv, "obs": o.obs})
+            })
+            .unwrap_or_else(|msg| json!({"conf": false, "mis": [{"field": "harness", "spec": "interpretable result", "real": msg}], "pv": [], "obs": Value::Null})),
             "onehop" => vh_core::catch(|| {
                 let (b, o, mis) = c12::onehop_cell(cell);
                 json!({"conf": mis.is_empty(), "mis": mis, "pv": o.pv, "obs": o.obs, "hdr": common::hex(&b[..8])})
